@@ -41,6 +41,7 @@ def run(tier, rep):
 
     rnd = rng("c01")
     pool = stream_corpus.payload_pool(bundle, "c01") + stream_corpus.special_payloads(bundle, rnd) + stream_corpus.syncy_payloads(rnd, 20)
+    von, voff = stream_corpus.validate_values()
     tr = fe.Traces(rep)
     n = 40 if quick else 600
     for i in range(n):
@@ -48,11 +49,11 @@ def run(tier, rep):
         data, items = gen_streams.mixed_stream(rnd, pool, rnd.randint(4, 14), well_formed=wf, dmg=0.25)
         fm = rnd.choice(["none", "eof", "short", "mixed", "mixed"])
         kind = "scripted" if fm != "none" else rnd.choice(["scripted", "bytesio", "buffered"])
-        tr.add(data, kind=kind, validate=1, parsed=True, quit=rnd.choice([0, 1, 2]), faults=gen_streams.faults(rnd, 80, fm), rnd=rnd,
+        tr.add(data, kind=kind, validate=rnd.choice(von), parsed=True, quit=rnd.choice([0, 1, 2]), faults=gen_streams.faults(rnd, 80, fm), rnd=rnd,
                use_iter=bool(i % 2), nframes=sum(1 for it in items if it[0] == "frame"), nother=sum(1 for it in items if it[0] != "frame"))
     data, frames = stream_corpus.crc_target_stream(bundle, rnd, pool)
     for q in (0, 1, 2):
-        tr.add(data, kind="scripted", validate=1, parsed=True, quit=q, faults=None, rnd=rnd, nframes=len(frames), nother=1)
+        tr.add(data, kind="scripted", validate=von[q % len(von)], parsed=True, quit=q, faults=None, rnd=rnd, nframes=len(frames), nother=1)
     for fn in stream_corpus.log_files():
         data = open(fn, "rb").read()
         if quick:
